@@ -32,6 +32,21 @@
 #include "aes_keyexp_internal.h"
 #include "aes_gcm.h"
 #include "aes_gcm_internal.h"
+#include <stddef.h>
+
+#ifdef SAFE_DATA
+/* The decryption schedule GCM does not need is key material too: wipe it (stores the compiler must keep). */
+static void
+clear_tmp_key(uint8_t *p, size_t n)
+{
+        volatile uint8_t *v = (volatile uint8_t *) p;
+
+        while (n--)
+                *v++ = 0;
+}
+#else
+#define clear_tmp_key(p, n)
+#endif
 
 void
 _aes_gcm_pre_128(const void *key, struct isal_gcm_key_data *key_data)
@@ -39,6 +54,7 @@ _aes_gcm_pre_128(const void *key, struct isal_gcm_key_data *key_data)
         uint8_t tmp_exp_key[ISAL_GCM_ENC_KEY_LEN * ISAL_GCM_KEY_SETS];
         _aes_keyexp_128((const uint8_t *) key, (uint8_t *) key_data->expanded_keys, tmp_exp_key);
         _aes_gcm_precomp_128(key_data);
+        clear_tmp_key(tmp_exp_key, sizeof(tmp_exp_key));
 }
 
 void
@@ -47,6 +63,7 @@ _aes_gcm_pre_256(const void *key, struct isal_gcm_key_data *key_data)
         uint8_t tmp_exp_key[ISAL_GCM_ENC_KEY_LEN * ISAL_GCM_KEY_SETS];
         _aes_keyexp_256((const uint8_t *) key, (uint8_t *) key_data->expanded_keys, tmp_exp_key);
         _aes_gcm_precomp_256(key_data);
+        clear_tmp_key(tmp_exp_key, sizeof(tmp_exp_key));
 }
 
 void
